@@ -227,17 +227,21 @@ package fsm
 //@ pure func viewWF(vp map[Bytes]Bool) bool = forall k Bytes :: vp[k] ==> blen(k) >= 5 && bat(k, 0) == 1
 
 // fill functions: add one pair (or count one) to the response under construction
+// (psize = the encoded size SizeVT reports; a pair adds at most its payload cost plus 64 bytes of framing)
+//@ uninterp func fcost(f Ref, klen Int, vlen Int) Int
+//@ uninterp func scost(f Ref, klen Int, vlen Int) Int
 //@ func fillContract
 //@   assumed
 //@   params key, value, response
 //@   requires response != nil
 //@   ensures response.Count == old(response.Count) + 1 && response.More == old(response.More)
-//@   modifies response.Kvs, response.Count
+//@   ensures response.psize >= old(response.psize) && response.psize <= old(response.psize) + fcost(self, len(key), len(value)) + 64
+//@   modifies response.Kvs, response.Count, response.psize
 
 //@ func sizeContract
 //@   assumed
 //@   params key, value
-//@   ensures result >= 0
+//@   ensures result >= 0 && result == scost(self, len(key), len(value))
 
 // the consumer of a streamed read: ghost log on the function value (number of chunks, pairs counted
 // in all chunks, whether the last chunk was flagged 'more', whether all earlier ones were, whether
@@ -247,6 +251,7 @@ package fsm
 //@ ghostfield any.lastMore Bool
 //@ ghostfield any.prevMore Bool
 //@ ghostfield any.stopped Bool
+//@ ghostfield any.maxSize Int
 //@ func yieldContract
 //@   assumed
 //@   params r
@@ -255,7 +260,8 @@ package fsm
 //@   ensures self.nchunks == old(self.nchunks) + 1 && self.pairs == old(self.pairs) + r.Count && self.lastMore == r.More
 //@   ensures self.prevMore == (old(self.prevMore) && (old(self.nchunks) == 0 || old(self.lastMore)))
 //@   ensures self.stopped == (old(self.stopped) || !goon)
-//@   modifies self.nchunks, self.pairs, self.lastMore, self.prevMore, self.stopped
+//@   ensures self.maxSize == (old(self.maxSize) >= r.psize ? old(self.maxSize) : r.psize)
+//@   modifies self.nchunks, self.pairs, self.lastMore, self.prevMore, self.stopped, self.maxSize
 
 // The lazily consumed range stream. N = number of pairs of the range in the reader's view.
 // Contract from the property: pairs delivered = min(limit, N) (all N without limit); every chunk but
@@ -268,12 +274,19 @@ package fsm
 //@   requires yield != nil && *reader != nil && *opts != nil && *fill != nil && *sf != nil && *limit >= 0
 //@   requires yield.nchunks == 0 && yield.pairs == 0 && yield.prevMore && !yield.stopped
 //@   requires viewWF((*reader).vP)
+//@   requires [paired] forall a Int, b Int :: fcost(*fill, a, b) <= scost(*sf, a, b)
+//@   requires yield.maxSize == 0
+//@   requires [sizer] forall a Int, b Int :: scost(*sf, a, b) <= a + b
+//@   requires [pairBound] forall k Bytes :: (*reader).vP[k] ==> blen(k) + blen((*reader).vV[k]) < 3000000      // key <= 1 KiB, value <= 2 MiB (request validation, C16)
+//@   ensures [C09.size]  yield.maxSize < 4193280 + 64      // every chunk stays below maxRangeSize + framing < 4 MiB
 //@   ensures [C09.limit] !yield.stopped && *limit > 0 ==> yield.pairs <= *limit
 //@   ensures [C09.all]   !yield.stopped ==> yield.pairs == (*limit > 0 && *limit < cnt((*reader).vP, bytesOf((*opts).LowerBound), bytesOf((*opts).UpperBound)) ? *limit : cnt((*reader).vP, bytesOf((*opts).LowerBound), bytesOf((*opts).UpperBound)))
 //@   ensures [C09.more]  !yield.stopped ==> yield.lastMore == (yield.pairs < cnt((*reader).vP, bytesOf((*opts).LowerBound), bytesOf((*opts).UpperBound)))
 //@   ensures [C09.flags] !yield.stopped ==> yield.prevMore && yield.nchunks >= 1
-//@   modifies yield.nchunks, yield.pairs, yield.lastMore, yield.prevMore, yield.stopped
+//@   modifies yield.nchunks, yield.pairs, yield.lastMore, yield.prevMore, yield.stopped, yield.maxSize
+//@   loop 0 invariant [C09.size] yield.maxSize < 4193280 + 64 && response.psize < 4193280 + 64 && response.psize >= 0
 //@   loop 0 invariant piter != nil && piter.bounded && piter.onKey && piter.pos == i && 0 <= i && i < cnt(piter.vP, piter.lo, piter.hi) && piter.cur == nth(piter.vP, piter.lo, piter.hi, i)
+//@   loop 0 invariant piter.vV == (*reader).vV
 //@   loop 0 invariant piter.vP == (*reader).vP && piter.lo == bytesOf((*opts).LowerBound) && piter.hi == bytesOf((*opts).UpperBound) && fresh(piter)
 //@   loop 0 invariant response != nil && fresh(response) && !response.More && response.Count >= 0
 //@   loop 0 invariant !yield.stopped && yield.pairs + response.Count == i && yield.prevMore && (yield.nchunks > 0 ==> yield.lastMore)
